@@ -50,7 +50,7 @@ Fixpoint grp_modes_ok (fuel : nat) (ty : N) : bool :=
     | Some d =>
       (dt_mode d <=? 4) &&
       forallb (fun pos => match T_subelements T (dt_sub_start d + pos) with
-                          | Some (kind, idx) => (kind =? 0) || grp_modes_ok f idx
+                          | Some (kind, idx) => if kind =? 0 then true else grp_modes_ok f idx
                           | None => false
                           end) (iota (dt_sub_end d - dt_sub_start d))
     end
